@@ -109,12 +109,14 @@ pub fn generate(seed: u64, tier: &str, out: &mut dyn std::io::Write) {
                 } };
                 // stay within the pattern pages and the one trailing page (what lies beyond is not described)
                 let n = if start + n > end + t.page { end + t.page - start } else { n };
-                for strat in ["v", "f", "p"] {
+                for strat in ["v", "f", "p", "a"] {
                     if strat == "p" && !attached {
                         continue;
                     }
                     let mut mr = match strat {
                         "v" => MemReader::for_virtual_mem(t.pid),
+                        // no strategy chosen: what `copy_from_process` does (a fresh reader for every call)
+                        "a" => MemReader::new(t.pid),
                         "f" => match MemReader::for_file(t.pid) { Ok(m) => m, Err(_) => continue },
                         _ => MemReader::for_ptrace(t.pid),
                     };
